@@ -19,7 +19,7 @@ from .. import gen as G
 
 PID = 'C12'
 RULE = ('cases = (source FromArray | one-column file | two-column file, Domain(length 3..2048, dr|dk), data length equal / truncated / extended, '
-        'k column absent / equal / shifted / rescaled / reversed / perturbed in a single point with relative size 1e-13..1e-1 (borderline cases '
+        'k column absent / equal / shifted / rescaled / reversed / NaN or inf in one point / perturbed in a single point with relative size 1e-13..1e-1 (borderline cases '
         'decided by np.allclose itself), rank-1 or rank-2 system for the createPRISM stage); non-trivial = a k column or a length mismatch is '
         'involved; distinct = distinct case digests')
 ASSUMPTIONS = ['np.allclose (rtol 1e-5, atol 1e-8) is the matching criterion, as the property states',
@@ -56,7 +56,7 @@ def cases(ctx):
                'L': int(rng.choice([3, 4, 16, 64, 100, 128, 512, int(rng.integers(3, 2049))])),
                'dom': str(rng.choice(['dr', 'dk'])), 'sp': float(rng.choice([0.1, 0.05, 0.25, 0.01, float(10 ** rng.uniform(-2, 0))])),
                'len': str(rng.choice(['equal', 'equal', 'equal', 'truncated', 'extended'])),
-               'kmod': str(rng.choice(['equal', 'equal', 'shifted', 'rescaled', 'reversed', 'single', 'single', 'single'])),
+               'kmod': str(rng.choice(['equal', 'equal', 'shifted', 'rescaled', 'reversed', 'single', 'single', 'single', 'nan', 'inf'])),
                'mag': float(10 ** rng.uniform(-13, -1)), 'rank': int(rng.integers(1, 3)), 'seed': int(rng.integers(0, 2 ** 31)),
                'listinput': bool(rng.random() < 0.2)}
 
@@ -91,6 +91,8 @@ def run_case(ctx, case):
         elif km == 'single':
             i = int(rng.integers(0, len(kk)))
             kk[i] = kk[i] * (1 + case['mag'] * float(rng.choice([-1, 1])))
+        elif km in ('nan', 'inf'):
+            kk[int(rng.integers(0, len(kk)))] = np.nan if km == 'nan' else np.inf        # a hole in the tabulated grid
     else:
         kk = None
     # ---- model verdict
